@@ -906,6 +906,11 @@ def gen_cli(rng):
             c["maxDepth"] = rng.choice([-1, 0, 1, 2])
         if not c["nodepend"] and rng.random() < 0.1:
             c["maxDepth"] = rng.choice([0, 1])
+        if rng.random() < 0.3:
+            # `eups_setup NAME=value ...`: the wrapper's way of restoring a variable the caller's shell exports but the
+            # operating system strips from the Python process (DYLD_LIBRARY_PATH): it belongs to the caller's environment
+            c["envargs"] = [[rng.choice(["LD_LIBRARY_PATH", "LD_LIBRARY_PATH", "DYLD_LIBRARY_PATH", "P0_HOME"]),
+                             rng.choice(["/sip/lib", "/sip/my lib:/usr/lib", "/a(b)", ""])]]
         calls.append(c)
     return {"kind": "cli", "products": st["products"], "calls": calls, "extra": st["extra"]}
 
@@ -1002,7 +1007,14 @@ def impl_cli(case):
         for call in case["calls"]:
             tfp, pdp, world = _cli_paths(root, case["products"], call)
             argv = _cli_argv(call, tfp, pdp)
-            r = common.in_child(_cli_run, env, argv, os.path.join(root, "emptydir"))
+            pyenv = env
+            if call.get("envargs"):
+                ea = dict((k, v) for k, v in call["envargs"])
+                # the caller's shell: holds NAME=value (an empty value: does not hold NAME); the Python process: does not get NAME
+                env = [x for x in env if x[0] not in ea] + [[k, v] for k, v in call["envargs"] if v]
+                pyenv = [x for x in env if x[0] not in ea]
+                argv = ["%s=%s" % (k, v) for k, v in call["envargs"]] + argv
+            r = common.in_child(_cli_run, pyenv, argv, os.path.join(root, "emptydir"))
             if r[0] != "ok":
                 steps.append({"exc": r[1:3]})
                 break
@@ -1506,6 +1518,8 @@ def evaluate(ctx, cases):
                 m = model.get((i, j))
                 got = {"stdout": st["stdout"] or None, "status": st["status"]}
                 ctx.hist("cli:status=%d%s" % (st["status"], "" if st["stdout"] else "/silent"))
+                if c["calls"][j].get("envargs") and st["status"] == 0 and st["reached"] and st["cmds"] != ["false"]:
+                    ctx.hist("cli:NAME=value-argument/success")
                 if st["cmds"] == ["false"]:
                     ctx.hist("cli:false-from-eups.setup")
                 if m != got:
@@ -1733,6 +1747,9 @@ def check_floors(ctx):
     if h.get("functions:changed", 0) < 30 or h.get("noaction:sourced", 0) < 20:
         raise common.InfraError("degenerate distribution: aliases changed the shell's functions %d times, -n texts sourced %d times"
                                 % (h.get("functions:changed", 0), h.get("noaction:sourced", 0)))
+    if h.get("cli:NAME=value-argument/success", 0) < 8:
+        raise common.InfraError("degenerate distribution: %d successful command lines with a NAME=value argument"
+                                % h.get("cli:NAME=value-argument/success", 0))
     if h.get("cli:failure-sourced", 0) < 10 or h.get("cli:status=0", 0) < 10 or h.get("cli:status=3/silent", 0) < 2:
         raise common.InfraError("degenerate distribution: command-line cases: %d failures sourced, %d successes, %d usage errors"
                                 % (h.get("cli:failure-sourced", 0), h.get("cli:status=0", 0), h.get("cli:status=3/silent", 0)))
